@@ -34,7 +34,7 @@ CHECKS["C16"] = dict(
 )
 CHECKS["C11"] = dict(
     category="proof",
-    text="Coq model of db.go/ldb (ordered byte-key store, write transaction = op log + the code's own put/delete/seq summary, bucket path encoding, iterators, BytesPrefix) with 45 theorems over all op sequences and all byte strings: refinement to an abstract map specification (KV/Spec.v; for every operation sequence the model's outputs equal the specification's up to the first step it leaves unspecified — transactions, top-level buckets, put/delete/clear/get/prefix-get, iterators, close/reopen; nested buckets and listings not yet in the specification), commit = whole log or nothing, read-your-writes for point/prefix reads, key encoding injective across buckets (isolation), prefix scans stay in their bucket, read-only iteration/seek exact and strictly ascending, BytesPrefix exact incl. 0xff prefixes; iterators of write transactions yield exactly the entries of the transaction's own view in the range, from the seek key on, strictly ascending, each once, for any pending batch (C11_write_iter_is_view; the merging iterator of /repo 160bde9, after 25fb027 for Seek below the range start; closed witnesses C11_write_iter_not_view_refuted and C11_seek_below_range_unfixed_refuted for the code as found); tied to the code by ~2000 random op sequences (148k ops) per quick run on a real LevelDB, replayed on the extracted model, plus a Go map as second oracle; failing sequences are shrunk.",
+    text="Coq model of db.go/ldb (ordered byte-key store, write transaction = op log + the code's own put/delete/seq summary, bucket path encoding, iterators, BytesPrefix) with 49 theorems over all op sequences and all byte strings: refinement to an abstract map specification (KV/Spec.v; for every operation sequence the model's outputs equal the specification's up to the first step it leaves unspecified — every operation: transactions, top-level and nested buckets incl. recursive delete, put/delete/clear/get/prefix-get, bucket listings, iterators, dump, close/reopen; unspecified only where the harness taints), commit = whole log or nothing, read-your-writes for point/prefix reads, key encoding injective across buckets (isolation), prefix scans stay in their bucket, read-only iteration/seek exact and strictly ascending, BytesPrefix exact incl. 0xff prefixes; iterators of write transactions yield exactly the entries of the transaction's own view in the range, from the seek key on, strictly ascending, each once, for any pending batch (C11_write_iter_is_view; the merging iterator of /repo 160bde9, after 25fb027 for Seek below the range start; closed witnesses C11_write_iter_not_view_refuted and C11_seek_below_range_unfixed_refuted for the code as found); tied to the code by ~2000 random op sequences (148k ops) per quick run on a real LevelDB, replayed on the extracted model, plus a Go map as second oracle; failing sequences are shrunk.",
     design_ref="DESIGN.md section 5, C11",
     note="Trusted: Coq kernel (no axioms), ExtrOcamlBasic + driver, Go harness + its reference map; goleveldb Get/Write/iterator snapshots and durability are environment (exercised by reopen steps). Bucket-listing theorem is partial (index well-formedness invariant not proved); iterators of write transactions are judged by the reference map against the transaction's view as long as the transaction writes nothing after creating them (the two-run listing of the code before 160bde9 would be reported under the key write-tx-iterator-not-view, which is no longer a known finding); Bucket() after DeleteBucket and NewBucket twice are modelled and diffed but outside the property text.",
     technique="Coq proof (invariant by induction over operation logs, encoding injectivity, iteration exactness) + extracted-model differential correspondence on a real LevelDB + reference-map oracle",
